@@ -68,6 +68,45 @@ def _nesting_ok(scfg, limit=64):
     return True
 
 
+def sibling_graph(g, rng):
+    """another graph on the same block names.  Half of the time a small
+    perturbation of g itself (one arc redirected and / or all arcs into one
+    block removed, which gives a second entry block: restructure_branch
+    refuses it half-way) - so that the stages before the refusal hand out the
+    same names as for g -, otherwise a random closed CFG of the same size
+    relabelled onto the names of g."""
+    names = list(g)
+    n = len(names)
+    if n < 3:
+        return None
+    if rng.random() < 0.5:
+        sib = {k: tuple(v) for k, v in g.items()}
+        mode = rng.choice(["redirect", "second_entry", "both"])
+        if mode in ("redirect", "both"):
+            srcs = [k for k, v in sib.items() if v]
+            if srcs:
+                k = rng.choice(srcs)
+                v = list(sib[k])
+                i = rng.randrange(len(v))
+                cands = [t for t in names[1:] if t not in v]
+                if cands:
+                    v[i] = rng.choice(cands)
+                    sib[k] = tuple(v)
+        if mode in ("second_entry", "both"):
+            victim = names[rng.randrange(1, n)]
+            sib = {k: tuple(t for t in v if t != victim) for k, v in sib.items()}
+        return sib
+    h = graphs.rand_closed(rng, n, p2=0.5, pexit=0.15)
+    if h is None:
+        return None
+    m = dict(zip([str(i) for i in range(n)], names))
+    sib = {m[k]: tuple(m[t] for t in v) for k, v in h.items()}
+    if rng.random() < 0.5:
+        victim = names[rng.randrange(1, n)]
+        sib = {k: tuple(t for t in v if t != victim) for k, v in sib.items()}
+    return sib
+
+
 class GraphCheck:
     """Instantiated by c01..c06 (and reused by others) with a property id, the
     set of oracles to activate and a non-triviality rule."""
@@ -138,8 +177,13 @@ class GraphCheck:
         # same process by runs of the very same case that are aborted by an
         # injected exception at a random library call
         if getattr(self, "fault_histories", True):
-            shards.append({"kind": "exh", "n": 4, "shard": 0, "nshards": 1, "stride": 4 if quick else 1,
-                           "offset": seed % 4 if quick else 0, "faults": 1})
+            for sh in range(4):
+                shards.append({"kind": "exh", "n": 4, "shard": sh, "nshards": 4, "stride": 1,
+                               "offset": 0, "faults": 1})
+            for sh in range(8):
+                shards.append({"kind": "exh", "n": 5, "shard": sh, "nshards": 8,
+                               "stride": 60 if quick else 4,
+                               "offset": seed % (60 if quick else 4), "faults": 1})
             for cls, q, t, payload in self.classes:
                 total = max(1, int((q if quick else t) * self.scale * 0.08))
                 per = 40 if quick else 400
@@ -299,6 +343,19 @@ class GraphCheck:
         rng = random.Random(core.sha([c0.get("g") or c0.get("src") or c0.get("origin"), "fault"]))
         sites = fault.inject_around(fctx, rng, lambda: self.run_case(c0, scratch, tier), tries,
                                     cold_key=(self.PROPERTY, c0.get("cls")), record=case)
+        # ... and one run of a SIBLING graph - the same block names, other arcs,
+        # every second time with a second entry block so that the branch stage
+        # refuses it on its own - so that whatever is remembered under a name
+        # or a set of names is remembered about another graph
+        if "g" in c0:
+            sib = sibling_graph(c0["g"], rng)
+            if sib is not None:
+                c1 = dict(c0, g=sib, id=None)
+                try:
+                    self.run_case(c1, scratch, tier)
+                except Exception:
+                    pass
+                acc.counters["M-fault.sibling_graph_runs"] += 1
         acc.counters.update(fctx.counters)
         acc.counters["cases_run_after_injected_faults"] += 1
         for s in sites:
